@@ -25,6 +25,7 @@ type Thread struct {
 	vc        map[int]int
 	parked    bool // parked at a visible op (DPOR mode)
 	recvOn    []*ChanV // channels this goroutine is currently blocked receiving from
+	fr        *frame   // innermost frame (for diagnostics)
 }
 
 type opDesc struct{ kind, obj, pos string }
